@@ -77,7 +77,7 @@ Theorem c18_never_exceeds N h t0 name t :
 Proof. exact (never_exceeds N h t0 name t). Qed.
 
 (* an alert that is not resolved (model.Alert.ResolvedAt) and has a non-zero end is one of those counted *)
-Theorem c18_firing_is_counted a t : a_ends a <> 0 -> resolved a t = false -> t <= a_ends a.
+Theorem c18_firing_is_counted a t : a_ends a <> zero_time -> resolved a t = false -> t <= a_ends a.
 Proof. exact (firing_counted a t). Qed.
 
 (* re-sends of admitted alerts are always accepted (and not counted as limited) *)
